@@ -39,13 +39,11 @@ REQUIRED_THEOREMS = [
     'OpusProps.C17.cache_eq_recomputed', 'OpusProps.C17.cache_rows_monotone', 'OpusProps.C17.cache_consistent_with_V',
     'OpusProps.C17.icdf_ok', 'OpusProps.C17.icdf_tiles',
     'OpusProps.C17.eprob_pairs_ok', 'OpusProps.C17.laplace_decode_encode', 'OpusProps.C17.laplace_encode_decode',
-    'OpusProps.C17.laplace_tiles',
+    'OpusProps.C17.laplace_tiles', 'OpusProps.C17.laplace_p0_roundtrip', 'OpusProps.C17.laplace_p0_icdfs_ok',
 ]
 UNPROVED = [
     'laplace_domain: LaplaceOk fs decay for ALL 0 < fs <= 32736, 0 < decay <= 11456 (the comment "decay is positive and at most '
     '11456" in laplace.c) — proved only for the 168 e_prob_model pairs (eprob_pairs_ok); the whole domain is swept by the search',
-    'laplace_p0_roundtrip: ec_laplace_decode_p0 inverts ec_laplace_encode_p0 and its two run-time ICDFs satisfy icdfOk 15 '
-    '(DRED only, not compiled in this configuration; modelled, tied and searched, not proved)',
     'int_ranges for cwrs.c: opus_int16 val and the float accumulation of yy are modelled exactly (unbounded); K <= 32767 is assumed',
 ]
 LEVEL_TEXT = ('full proof: U/V recurrence and symmetry; cwrsi and icwrs (transcribed loop by loop from cwrs.c, both branches and '
@@ -54,10 +52,12 @@ LEVEL_TEXT = ('full proof: U/V recurrence and symmetry; cwrsi and icwrs (transcr
               'inside its rows; the shipped pulse cache equals the Lean re-implementation of compute_pulse_cache, is monotone and brackets '
               '8*log2 V; all 171 static ICDF tables of celt/ and silk/ are strictly decreasing to 0 below 2^ftb, which is proved to make the '
               'symbol intervals tile [0,2^ftb); the Laplace encoder/decoder intervals tile [0,32768) and decode inverts encode after '
-              'clamping for every (fs,decay) satisfying LaplaceOk, which holds for every e_prob_model pair')
+              'clamping for every (fs,decay) satisfying LaplaceOk, which holds for every e_prob_model pair; the _p0 variants round-trip and '
+              'their run-time ICDFs are exact codes')
 LEVEL_NOTE = ('trusted: Lean kernel; the extractors tools/extract/CeltTables.c, SilkIcdf.c (tables go through the C compiler); the '
               'transcription of cwrs.c/laplace.c into Lean, tied by exact differential runs on the real code under ASan/UBSan with only '
-              'the range-coder entry points stubbed; ftb values per call site (source scan)')
+              'the range-coder entry points stubbed; ftb values and table slices per call site (source scan + the tables captured at the '
+              'real call sites by link-time wrapping, compared with the catalogue)')
 TECHNIQUE = 'Lean 4 theorems (induction + decide on regenerated tables) + table regeneration + differential correspondence + witness search'
 
 
